@@ -15,7 +15,7 @@ RULE = ("cases = a module state (fresh chain / module added to a running chain /
         "1 unibi per epoch; fixed and random distributions summing to 1) and a history of 6..70 consecutive day-epoch ends "
         "(direct AfterEpochEnd or, 1 case in 4, produced by epochs.BeginBlocker one day apart) reaching past MaxPeriod, mixed "
         "with toggles (1 in 8 by a non-sudoer), parameter edits and other identifiers' epoch ends; 1 case in 4 is 'wild': "
-        "inconsistent counters, never-written sequences, polynomial not positive, stray module balance, gaps in the epoch "
+        "inconsistent counters (1 case in 7 of all: counters ahead of the epoch number), never-written sequences, polynomial not positive, stray module balance, gaps in the epoch "
         "numbers, edits of EpochsPerPeriod / MaxPeriod, invalid edits; "
         "non-trivial = inside the property's precondition with at least one period roll-over, at least 3 enabled and 1 disabled "
         "day epoch; distinct = distinct input")
@@ -184,7 +184,10 @@ def nontrivial(rec):
 def classify(rec):
     i = rec["input"]
     f = _facts(rec)
-    ks = ["mode:" + i["mode"], "epp=%d" % i["params"]["epp"], "max=%d" % i["params"]["max"],
+    o = rec["obs"]
+    first = next((op["e"] for op in i["ops"] if op["op"] == "end" and op.get("day")), None)
+    ahead = first is not None and i.get("period") is not None and o["params"]["epp"] * o["period"] + o["skipped"] > first
+    ks = (["counters-ahead-of-epoch-number"] if ahead else []) + ["mode:" + i["mode"], "epp=%d" % i["params"]["epp"], "max=%d" % i["params"]["max"],
           "poly-degree=%d" % (len(i["params"]["factors"]) - 1),
           "consistent-start" if _consistent_start(rec) else "outside-precondition"]
     if i.get("period") is None:
